@@ -38,7 +38,7 @@ Definition kind_of_N (n : N) : kind :=
 Global Instance kind_countable : Countable kind.
 Proof. apply (inj_countable' kind_to_N kind_of_N). by intros []. Defined.
 
-Definition cell : Type := kind * N.
+Notation cell := (kind * N)%type.
 
 (* what a policy / profile / endpoint / route ... carries, as far as C02 is concerned *)
 Record value := { v_refs : list cell; v_ver : N }.
